@@ -11,11 +11,33 @@ using namespace BaseGraph;
 
 namespace {
 
+// A rejected extraction (the subset holds a vertex that does not exist) must not influence later ones
+// (scratch state kept between calls, left dirty by the exception).  Whether it throws is C07's matter.
+template <class G>
+void rejectedExtraction(const G &g, const Model &m, unsigned long long mask, StepFacts &facts) {
+    std::unordered_set<VertexIndex> S;
+    for (unsigned v = 0; v < m.n && v < 64; ++v)
+        if ((mask >> v) & 1)
+            S.insert(v);
+    S.insert((VertexIndex)(m.n + (mask % 3)));
+    for (int which = 0; which < 2; ++which)
+        try {
+            if (which == 0)
+                (void)algorithms::getSubgraph(g, S);
+            else
+                (void)algorithms::getSubgraphWithRemap(g, S);
+        } catch (const std::exception &) {
+            facts.tag("rejected_extraction_before");
+        }
+}
+
 template <class G>
 std::string checkSubset(const G &g, const Model &m, unsigned long long mask, std::string &observer, StepFacts &facts) {
     typedef GT<G> T;
     typedef typename T::Label L;
     size_t n = m.n;
+    if (mask % 4 == 1) // interleave: a rejected call whose subset shares members with none / some / all of the next one
+        rejectedExtraction(g, m, (mask * 2654435761ULL) >> 7, facts);
     std::unordered_set<VertexIndex> S;
     std::vector<char> in(n, 0);
     for (unsigned v = 0; v < n && v < 64; ++v)
